@@ -33,6 +33,40 @@ type Deflater struct {
 // Message compresses p at the given compress/flate level (0 = stored blocks,
 // -2 = huffman only, 1..9).
 func (d *Deflater) Message(p []byte, level int, end EndMode) []byte {
+	out := d.message(p, level, end)
+	// compress/flate's NewWriterDict (go1.23, levels 2-9) emits a SHORT preset
+	// dictionary as part of a stored block when the data is incompressible, i.e.
+	// the stream then encodes dict+p. Check every message the sender produces and
+	// fall back to a level that does not have the problem.
+	if !d.decodesTo(out, p) {
+		out = d.message(p, 1, end)
+		if !d.decodesTo(out, p) {
+			out = d.message(p, 0, end)
+			if !d.decodesTo(out, p) {
+				panic("wire: cannot produce a correct deflate stream")
+			}
+		}
+	}
+	if d.Takeover {
+		d.hist = appendWindow(d.hist, p)
+	}
+	return out
+}
+
+func (d *Deflater) decodesTo(payload, p []byte) bool {
+	var dict []byte
+	if d.Takeover {
+		dict = d.hist
+	}
+	src := append(append([]byte(nil), payload...), Tail...)
+	out, err := io.ReadAll(flate.NewReaderDict(bytes.NewReader(src), dict))
+	if err != nil && !errors.Is(err, io.ErrUnexpectedEOF) {
+		return false
+	}
+	return bytes.Equal(out, p)
+}
+
+func (d *Deflater) message(p []byte, level int, end EndMode) []byte {
 	var buf bytes.Buffer
 	var dict []byte
 	if d.Takeover {
@@ -55,9 +89,6 @@ func (d *Deflater) Message(p []byte, level int, end EndMode) []byte {
 	case EndBFinal:
 		w.Close()
 		out = append(buf.Bytes(), 0x00)
-	}
-	if d.Takeover {
-		d.hist = appendWindow(d.hist, p)
 	}
 	return append([]byte(nil), out...)
 }
